@@ -247,6 +247,7 @@ LAYOUTS = [
     lambda l: l + " // jumps to the label below:",
     lambda l: l + " // int 1; pop // b L0",
     lambda l: l + "\t//#pragma version 2",
+    lambda l: l + "\r",
 ]
 UNKNOWN = ["foo", "txnx Fee", "int64 5", "bsqrtx", "gloadsss", "dup3", "Int 5", "global_x", "app_global_get_exx 1", "switchx L0", "pushintz 1"]
 
@@ -283,6 +284,10 @@ def worker(item: Any, res: runner.Result) -> None:  # pylint: disable=too-many-l
         res.count("line_number_checks")
         if got != want:
             res.violation("C16.line-numbers", item, expected=want, actual=got)
+        teal2, _ = harness.parse(src.replace("\n", "\r\n"))
+        got2 = [(i.line, str(i)) for i in teal2.instructions]
+        if got2 != want:
+            res.violation("C16.line-numbers", item, expected=want, actual=got2, line_endings="CRLF")
         with harness.capture():
             lab = parse_line("  my_label:   // c")
         if not isinstance(lab, Label) or str(lab) != "my_label:":
@@ -435,7 +440,7 @@ def main(argv: List[str]) -> int:
         "evaluations": c.get("lines_parsed", 0),
         "rule": "every opcode of the v1-v8 table x every field of its group x immediate spellings (uint64 in decimal/hex/octal incl. "
         "2^64-1, named constants, 19 byte-string spellings incl. base64/base32 in four syntaxes and quoted strings with spaces, //, "
-        "escapes; label names that are opcode names) x 12 whitespace/comment layouts; unknown opcodes x 5 layouts; line numbers; "
+        "escapes; label names that are opcode names) x 13 whitespace/comment layouts; unknown opcodes x 5 layouts; line numbers; "
         "every ordered pair of base lines parsed one after the other in one process (history independence of parse_line); every "
         "base line inside a program through parse_teal (first and second instruction); distinct = base line; non-trivial = all",
         "ordered_pairs": c.get("ordered_pairs", 0),
